@@ -35,6 +35,9 @@ CHECKS = {
     'C04': dict(cat='other', tech='symbolic execution of the MIR of the face init/collect/finalize code, cuboid and the builder loop -> SMT',
                 text='Solver-decided over the reals / symbolic labels: the stored face normal is minus the inward plane normal of the left cell; wall normals are inward unit axes; neighbour planes carry the unit normal from the neighbour towards the generator through the midpoint; finalize divides by 3 x area for every positive area (centroid = affine combination of triangle vertices); each face of a constructed cell is present in the tessellation (store-once rule). Closure and the divergence identity (cell-level float sums) are outside.',
                 note=TRUST_M, ref='DESIGN.md 4 C04'),
+    'C05': dict(cat='other', tech='Kani/CBMC harnesses on cuboid + iloc (bit-precise f64) + symbolic execution of the MIR of the leaf guards -> SMT; native re-observation of the listed known finding',
+                text='Totality of the leaf guards only: the position -> grid map stays in [1,2)/[0,2^52) for every queried position (Kani, one axis symbolic, |anchor| <= 2^20, 2^-10 <= width <= 2^20, positions in [A-W-h, A+2W]; quick: x axis reflective; thorough: y, z and periodic) and for every box over the reals; HalfSpace::new error bound >= EPSILON(1+sum|n_i p_i|) > 0, clip = 0 exactly inside the band; wall mirror image = exact reflection; the builder panics only for coincident points. Global consistency of tie decisions is NOT claimed: a genuine defect there (generators exactly on a wall) is a listed known finding, re-observed natively.',
+                note=TRUST_M + '; ' + TRUST_K, ref='DESIGN.md 4 C05, 5'),
     'C06': dict(cat='other', tech='symbolic execution of the MIR of the periodic-image enumeration, shift closure, cuboid, right_loc and one builder-loop iteration -> SMT',
                 text='Solver-decided over symbolic boxes/positions: exactly the 3^d lattice shifts are enumerated (only on active axes), closed under negation; reported shift = -(query shift), absent iff zero; the box is tripled exactly on active periodic axes and the integer grid domain contains it with margin; neighbour position = generator + shift; every candidate within the safety radius - including the cell\'s own images - is clipped by its labelled bisector. Equality with the replicated tessellation and translation invariance are outside.',
                 note=TRUST_M, ref='DESIGN.md 4 C06'),
